@@ -110,6 +110,14 @@ Verts(l, vset) ==
         ccw == Concat([k \in 1..Len(C) |-> SelectSeq(SidePts(C, k), LAMBDA p : p \in own \/ p \in vset)])
     IN  IF l.rev THEN Reverse(ccw) ELSE ccw
 
+\* the same cyclic sequence starting at index j; relations do not depend on the start vertex,
+\* the code does (Vertex(0)/Vertex(1) are the probes of its non-crossing shortcuts)
+RotateTo(sq, j) == [k \in 1..Len(sq) |-> sq[((j + k - 2) % Len(sq)) + 1]]
+\* ... starting so that the second vertex is pt (pt must occur in sq)
+SecondIs(sq, pt) == LET j == CHOOSE k \in 1..Len(sq) : sq[k] = pt
+                    IN  RotateTo(sq, IF j = 1 THEN Len(sq) ELSE j - 1)
+IsRotationOf(a, b) == Len(a) = Len(b) /\ \E j \in 1..Len(b) : a = RotateTo(b, j)
+
 \* grid point (x,y) of face l.f lies on the boundary: the four cells around it disagree
 OnBoundary(l, x, y) ==
     {InShapeXY(l, x - 1, y - 1), InShapeXY(l, x, y - 1), InShapeXY(l, x - 1, y), InShapeXY(l, x, y)} = {TRUE, FALSE}
@@ -155,6 +163,11 @@ Subset(rq, rp) == rq \subseteq rp
 Meets(rp, rq) == rp \cap rq # {}
 ContainsOn(U, P, Q) == Subset(RegionOn(U, Q), RegionOn(U, P))
 IntersectsOn(U, P, Q) == Meets(RegionOn(U, P), RegionOn(U, Q))
+
+\* The expected answers of golang/geo (Loop and Polygon alike; a Loop is a one-loop polygon):
+\* shared boundary alone is neither intersection nor containment, equal regions contain each other.
+S2Contains(U, P, Q) == ContainsOn(U, P, Q)       \* P.Contains(Q)
+S2Intersects(U, P, Q) == IntersectsOn(U, P, Q)   \* P.Intersects(Q)
 
 \* the boundaries of two loops have a common point (same face only)
 LoopsTouch(a, b) == a.f = b.f /\ BoundaryPts(a) \cap BoundaryPts(b) # {}
